@@ -345,9 +345,26 @@ func c10Run(sc c10Script) []c10Ent {
 		w.setFree(false)
 	}
 
+	// Sends issued after cancellation (or after a failed start) are asynchronous and may all be pending at
+	// once; at most four are issued per script (more add nothing: the loop either takes them into a batch
+	// that is dropped at return, or has returned), which keeps the trace-inclusion search in Coq small.
+	post := 0
+	allow := func() bool {
+		if !cancelled && !sc.fail {
+			return true
+		}
+		if post >= 4 {
+			return false
+		}
+		post++
+		return true
+	}
 	for _, a := range sc.acts {
 		switch a.kind {
 		case c10ASend:
+			if !allow() {
+				continue
+			}
 			next++
 			if cancelled || sc.fail {
 				async(next, nil)
@@ -357,6 +374,9 @@ func c10Run(sc c10Script) []c10Ent {
 		case c10ABurst:
 			var wg sync.WaitGroup
 			for i := 0; i < a.n; i++ {
+				if !allow() {
+					continue
+				}
 				next++
 				if cancelled || sc.fail {
 					async(next, nil)
@@ -366,6 +386,10 @@ func c10Run(sc c10Script) []c10Ent {
 			}
 			wg.Wait()
 		case c10ARace:
+			if !allow() {
+				w.release()
+				continue
+			}
 			next++
 			var wg sync.WaitGroup
 			if cancelled || sc.fail {
